@@ -386,9 +386,15 @@ def _cg_oracle(o):
         return "status %r returned (neither CONVERGED nor ERROR)" % st
     sts = o["statuses"]
     if not sts or sts[-1] != 0:
-        # CONVERGED without the controller saying so: only legitimate for gamma == 0
-        if np.linalg.norm(res) > 1e-8 * scale:
+        # CONVERGED without the controller saying so: only legitimate for gamma == 0, which for a
+        # positive definite preconditioner means a vanishing residual (a singular / indefinite
+        # preconditioner is outside the property's hypothesis: gamma = r.P r can vanish for r != 0)
+        if sp.get("hpd", True) and np.linalg.norm(res) > 1e-8 * scale:
             return "CONVERGED without the controller's verdict although the residual is %.3g" % float(np.linalg.norm(res))
+        pd = np.ones(len(res)) if sp.get("prec") is None else np.array(sp["prec"], dtype=np.float64)
+        gam = float(np.real(np.vdot(res, pd * res)))
+        if abs(gam) > 1e-10 * scale * scale * float(np.max(np.abs(pd)) + 1e-300):
+            return "CONVERGED without the controller's verdict although gamma = r^H P r = %.3g is not zero" % gam
         return None
     k = len(sts) - 1
     if c["limit"] is not None and k >= c["limit"]:
@@ -672,7 +678,7 @@ class C14(C.Check):
 
     def _cases(self, ctx):
         rng = ctx.rng(14)
-        nctrl, ncg, nbig = (100, 36, 30) if ctx.quick else (1500, 400, 300)
+        nctrl, ncg, nbig = (100, 36, 30) if ctx.quick else (1000, 250, 300)
         cor = ctx.corpus()
         ctrl = [c["spec"] for c in cor if c.get("kind") == "ctrl"] + [gen_ctrl_spec(rng, i) for i in range(nctrl)]
         cg = [c["spec"] for c in cor if c.get("kind") == "cg"] + [gen_cg_spec(rng, i) for i in range(ncg)]
